@@ -248,6 +248,7 @@ func init() {
 		switch argStr(a[0]) {
 		case "intlimbs":
 			in.opts.IntLimbs = v != 0
+			in.tt.IntMode = v != 0
 		case "maxsteps":
 			in.opts.MaxSteps = v
 		case "maxconcretize":
@@ -265,6 +266,31 @@ func init() {
 		in.P.allocLimit = in.argInt(a[0])
 		in.P.allocLimitOn = true
 		return nil
+	})
+	sx("AssumeRange", func(in *Interp, fr *frame, a []Value, _ *ssa.CallCommon) Value {
+		lo, hi := a[1].(*Term), a[2].(*Term)
+		for _, b := range in.sliceTerms(a[0].(Slice)) {
+			in.assume(in.tt.Cmp(OUle, lo, b))
+			in.assume(in.tt.Cmp(OUle, b, hi))
+		}
+		return nil
+	})
+	sx("Digits", func(in *Interp, fr *frame, a []Value, _ *ssa.CallCommon) Value {
+		// n decimal digit characters, integer-encoded: byte i = int2bv(8, 48 + d_i), 0 <= d_i <= 9
+		name := in.freshName(argStr(a[0]))
+		n := in.argInt(a[1])
+		bs := make([]*Term, n)
+		vars := make([]*Term, n)
+		for i := 0; i < n; i++ {
+			d := in.tt.Var(fmt.Sprintf("%s[%d]", name, i), IntSort)
+			in.tt.rangeVars[d] = -9
+			in.assume(in.tt.ICmp(OILe, in.tt.IntI(0), d))
+			in.assume(in.tt.ICmp(OILe, d, in.tt.IntI(9)))
+			vars[i] = d
+			bs[i] = in.tt.Int2BV(8, in.tt.IBin(OIAdd, in.tt.IntI(48), d))
+		}
+		in.P.inputs = append(in.P.inputs, inputRec{Name: name, Kind: "digits", Vars: vars})
+		return in.mkStr(bs)
 	})
 	sx("Concrete", func(in *Interp, fr *frame, a []Value, _ *ssa.CallCommon) Value {
 		return in.mkBool(a[0].(*Term).IsConst())
@@ -493,18 +519,24 @@ func (in *Interp) curFrame() *frame {
 	return nil
 }
 
-// sprintf renders what can be rendered concretely; symbolic operands appear as "?".
+// sprintf renders what can be rendered: strings (also symbolic ones) and concrete scalars;
+// other symbolic operands appear as "?".
 func (in *Interp) sprintf(format Value, args Slice) Value {
 	f, ok := isConcreteStr(format)
 	if !ok {
 		return "?"
 	}
 	es := in.sliceElems(args)
-	var sb strings.Builder
+	var out []*Term
+	lit := func(s string) {
+		for i := 0; i < len(s); i++ {
+			out = append(out, in.mkByte(s[i]))
+		}
+	}
 	ai := 0
 	for i := 0; i < len(f); i++ {
 		if f[i] != '%' || i+1 >= len(f) {
-			sb.WriteByte(f[i])
+			out = append(out, in.mkByte(f[i]))
 			continue
 		}
 		j := i + 1
@@ -518,17 +550,28 @@ func (in *Interp) sprintf(format Value, args Slice) Value {
 		spec := f[i : j+1]
 		i = j
 		if verb == '%' {
-			sb.WriteByte('%')
+			out = append(out, in.mkByte('%'))
 			continue
 		}
 		if ai >= len(es) {
-			sb.WriteString("%!" + string(verb) + "(MISSING)")
+			lit("%!" + string(verb) + "(MISSING)")
 			continue
 		}
-		sb.WriteString(in.fmtArg(es[ai], spec))
+		arg := es[ai]
 		ai++
+		if iv, ok := arg.(Iface); ok && iv.t != nil && (verb == 's' || verb == 'v') && spec == "%"+string(verb) {
+			switch x := iv.v.(type) {
+			case *SymStr:
+				out = append(out, x.B...)
+				continue
+			case string:
+				lit(x)
+				continue
+			}
+		}
+		lit(in.fmtArg(arg, spec))
 	}
-	return sb.String()
+	return in.mkStr(out)
 }
 
 func (in *Interp) sprint(args Slice, sep string) Value {
